@@ -56,6 +56,7 @@ type confPlan struct {
 	Clients int         `json:"clients"`
 	Ops     []confOp    `json:"ops"`
 	Faults  bool        `json:"faults"`
+	N2      int         `json:"n2,omitempty"`
 }
 
 func descOf(g *confGroup) map[string]any {
